@@ -223,12 +223,12 @@ theorem sumOf_perm (p q : List (Nat × R)) (h : p.Perm q) (k : Nat) : sumOf p k 
   unfold sumOf
   exact ((h.filter _).map _).sum_eq
 
-/-- **numpy variant = specification**, for every list of (label, value) pairs -/
-theorem groupNp_eq_spec (pairs : List (Nat × R)) : groupNp pairs = groupSpec pairs := by
+/-- the former cumsum / run-end-difference variant = specification in exact arithmetic -/
+theorem groupNpCumsum_eq_spec (pairs : List (Nat × R)) : groupNpCumsum pairs = groupSpec pairs := by
   have hs := isortBy_sorted (Prod.fst : Nat × R → Nat) pairs
   have hp := isortBy_perm (Prod.fst : Nat × R → Nat) pairs
-  have h1 : groupNp pairs = core (isortBy Prod.fst pairs) 0 0 := by
-    unfold groupNp core
+  have h1 : groupNpCumsum pairs = core (isortBy Prod.fst pairs) 0 0 := by
+    unfold groupNpCumsum core
     exact diffs_none _
   rw [h1, core_eq _ hs]
   unfold groupSpec
@@ -243,5 +243,100 @@ theorem groupNp_eq_spec (pairs : List (Nat × R)) : groupNp pairs = groupSpec pa
   apply List.map_congr_left
   intro k _
   simp only [sub_self, ite_self, zero_add, sumOf_perm _ _ hp]
+
+
+/-! ### one sum per run (the current `_sum_by_group_sorted`) -/
+
+theorem keysAdj_congr (a b : List (Nat × R)) (h : a.map Prod.fst = b.map Prod.fst) : keysAdj a = keysAdj b := by
+  induction a generalizing b with
+  | nil => cases b <;> simp_all [keysAdj]
+  | cons p t ih =>
+    cases b with
+    | nil => simp at h
+    | cons p' t' =>
+      simp only [List.map_cons, List.cons.injEq] at h
+      cases t with
+      | nil =>
+        cases t' with
+        | nil => simp [keysAdj, h.1]
+        | cons q' t'' => simp at h
+      | cons q t2 =>
+        cases t' with
+        | nil => simp at h
+        | cons q' t'' =>
+          have hq : q.1 = q'.1 := by
+            have := h.2; simp only [List.map_cons, List.cons.injEq] at this; exact this.1
+          have ht := ih (q' :: t'') h.2
+          unfold keysAdj
+          rw [h.1, hq, ht]
+
+theorem runSumsAux_eq (t : List (Nat × R)) (cur : Nat × R) (h : (cur :: t).Pairwise (fun a b => a.1 ≤ b.1)) :
+    runSumsAux cur t = (keysAdj (cur :: t)).map (fun k => (k, sumOf (cur :: t) k)) := by
+  induction t generalizing cur with
+  | nil =>
+    simp only [runSumsAux, keysAdj, List.map_cons, List.map_nil, sumOf_cons, if_true]
+    simp [sumOf]
+  | cons q t ih =>
+    rw [List.pairwise_cons] at h
+    rw [runSumsAux]
+    by_cases hpq : cur.1 = q.1
+    · simp only [hpq, beq_self_eq_true, if_true]
+      have hs' : ((q.1, cur.2 + q.2) :: t).Pairwise (fun a b => a.1 ≤ b.1) := by
+        have := h.2; rw [List.pairwise_cons] at this ⊢; exact this
+      rw [ih _ hs']
+      have hk : keysAdj ((q.1, cur.2 + q.2) :: t) = keysAdj (cur :: q :: t) := by
+        have e1 : keysAdj ((q.1, cur.2 + q.2) :: t) = keysAdj (q :: t) := keysAdj_congr _ _ (by simp)
+        rw [e1]; conv_rhs => unfold keysAdj
+        simp [hpq]
+      rw [hk]
+      apply List.map_congr_left
+      intro k _
+      rw [sumOf_cons, sumOf_cons cur, sumOf_cons q]
+      by_cases hkq : q.1 = k
+      · simp [hpq, hkq, add_assoc]
+      · simp [hpq, hkq]
+    · have hq : cur.1 < q.1 := Nat.lt_of_le_of_ne (h.1 q (by simp)) hpq
+      have hall : ∀ x ∈ q :: t, cur.1 < x.1 := by
+        intro x hx
+        rcases List.mem_cons.1 hx with rfl | hx
+        · exact hq
+        · exact Nat.lt_of_lt_of_le hq ((List.pairwise_cons.1 h.2).1 x hx)
+      simp only [beq_iff_eq, hpq, if_false]
+      rw [ih _ h.2]
+      conv_rhs => unfold keysAdj
+      simp only [beq_iff_eq, hpq, if_false, List.map_cons]
+      congr 1
+      · rw [sumOf_cons, sumOf_zero_of_lt _ _ hall]; simp
+      · apply List.map_congr_left
+        intro k hk
+        rw [mem_keysAdj] at hk
+        obtain ⟨x, hx, rfl⟩ := List.mem_map.1 hk
+        have hne : cur.1 ≠ x.1 := Nat.ne_of_lt (hall x hx)
+        rw [sumOf_cons cur]; simp [hne]
+
+theorem runSums_eq (s : List (Nat × R)) (h : s.Pairwise (fun a b => a.1 ≤ b.1)) :
+    runSums s = (keysAdj s).map (fun k => (k, sumOf s k)) := by
+  cases s with
+  | nil => simp [runSums, keysAdj]
+  | cons p t => exact runSumsAux_eq t p h
+
+/-- **numpy variant = specification**, for every list of (label, value) pairs -/
+theorem groupNp_eq_spec (pairs : List (Nat × R)) : groupNp pairs = groupSpec pairs := by
+  have hs := isortBy_sorted (Prod.fst : Nat × R → Nat) pairs
+  have hp := isortBy_perm (Prod.fst : Nat × R → Nat) pairs
+  unfold groupNp
+  rw [runSums_eq _ hs]
+  unfold groupSpec
+  have hk : keysAdj (isortBy Prod.fst pairs) = keysOf (pairs.map Prod.fst) := by
+    apply List.Pairwise.eq_of_mem_iff (keysAdj_strict _ hs) (keysOf_strict _)
+    intro a
+    rw [mem_keysAdj, mem_keysOf, List.mem_map, List.mem_map]
+    constructor
+    · rintro ⟨x, hx, rfl⟩; exact ⟨x, hp.mem_iff.1 hx, rfl⟩
+    · rintro ⟨x, hx, rfl⟩; exact ⟨x, hp.mem_iff.2 hx, rfl⟩
+  rw [hk]
+  apply List.map_congr_left
+  intro k _
+  rw [sumOf_perm _ _ hp]
 
 end PPV.Lemmas.GroupNp
